@@ -54,7 +54,11 @@ SLACK = 1e-9
 # ----------------------------------------------------------------------------------------------- helpers
 
 def _dtype(name):
-    return {None: None, "float64": np.float64, "float32": np.float32, "int": int, "intp": np.intp}[name]
+    return {None: None, "float64": np.float64, "float32": np.float32, "float16": np.float16, "int": int,
+            "intp": np.intp}[name]
+
+
+NARROW = {"float32": (np.float32, 24), "float16": (np.float16, 11)}      # dtype, bits of precision
 
 
 def reduced_axes(ndim, axis):
@@ -356,6 +360,57 @@ def gen_stat_case(r, max_n, tool=None):
                 Mi[i, c] = float(r.randint(int(math.floor(l)) - 2, int(math.ceil(u)) + 2))
         mv[...] = Mi.reshape(mv.shape)
     case["data"] = arr.ravel().tolist()
+    case["nan_p"] = nan_p
+    return case
+
+
+NARROW_TOOLS = ["mean", "nanmean", "sum", "nansum", "var", "std", "nanvar", "nanstd"]
+UNREPRESENTABLE = [(0.0, 0.7), (-0.7, -0.1), (0.0, 0.1), (0.1, 0.7), (-0.3, 0.0), (0.0, 1.1), (-1.3, 0.0), (0.3, 0.9),
+                   (0.0, 3.3), (-0.9, 0.6), (0.5, 2.9), (-2.9, -0.5), (0.0, 0.3), (1.1, 1.9)]
+
+
+def gen_narrow_case(r):
+    """the `dtype=` keyword (float32, float16; int for sum) crossed with bounds the dtype CANNOT represent, few records
+    (1, 2, 4, 8: sizes where a narrow accumulation can be exact) mostly sitting on one bound (the lower bound 0 half of
+    the time), scalar or axis-0 layout; the neighbours are corner-to-corner / far out of bounds"""
+    tool = r.choice(NARROW_TOOLS)
+    m = r.u01()
+    dt = "float32" if m < 0.45 else ("float16" if m < 0.9 else "int")
+    if dt == "int" and tool != "sum":
+        # mean/var/std with an integer dtype: numpy truncates the statistic itself (see the report of this round: the
+        # UNCHANGED code moves a mean by 1 with sensitivity 2/3); nan-variants refuse integer dtypes.  Not generated.
+        dt = "float16"
+    n = r.choice([1, 1, 2, 2, 4, 4, 8, 3, 5])
+    ncol = r.choice([0, 0, 1, 2, 3])
+    shape, axis = ([n], None) if ncol == 0 else ([n, ncol], 0)
+    if ncol == 0 and r.chance(0.3):
+        axis = 0
+    case = {"family": "stat", "tool": tool, "eps": r.epsilon(1e-3, 20.0), "shape": shape, "axis": axis,
+            "keepdims": False, "dtype": dt}
+
+    def one():
+        if r.chance(0.6):
+            return r.choice(UNREPRESENTABLE)
+        u = r.uniform(0.05, 20.0)
+        k = r.randint(0, 3)
+        return (0.0, u) if k == 0 else ((-u, 0.0) if k == 1 else ((u, u + r.uniform(0.05, 20.0)) if k == 2 else
+                                                                   (-u - r.uniform(0.05, 20.0), -u)))
+    if ncol >= 1 and r.chance(0.5):
+        bs = [one() for _ in range(ncol)]
+        case["bounds"] = [[float(b[0]) for b in bs], [float(b[1]) for b in bs]]
+    else:
+        b = one()
+        case["bounds"] = [float(b[0]), float(b[1])]
+    ncell = max(ncol, 1)
+    cb = cell_bounds(case, ncell)
+    nan_p = r.choice([0.0, 0.0, 0.3]) if tool.startswith("nan") else 0.0
+    M = np.empty((n, ncell))
+    for c in range(ncell):
+        l, u = cb[c]
+        side = l if (l == 0 or (u != 0 and r.chance(0.5))) else u
+        for i in range(n):
+            M[i, c] = float("nan") if (nan_p and r.chance(nan_p)) else (side if r.chance(0.85) else gen_value(r, l, u))
+    case["data"] = M.reshape(shape).ravel().tolist()
     case["nan_p"] = nan_p
     return case
 
@@ -705,7 +760,7 @@ def noise_of(case, ncall):
     if case["family"] != "stat":
         return [0.0] * ncall
     tool = case["tool"]
-    u = 2.0 ** -23 if case.get("dtype") == "float32" else 2.0 ** -52
+    u = 2.0 ** -23 if case.get("dtype") == "float32" else (2.0 ** -10 if case.get("dtype") == "float16" else 2.0 ** -52)
     mode, red, red_shape, kept, _ = layout(case)
     n = int(np.prod(red_shape)) if red_shape else 1
     out = []
@@ -718,10 +773,47 @@ def noise_of(case, ncall):
         elif tool in ("sum", "nansum"):
             out.append(k * u * m * n)
         elif tool in ("var", "nanvar", "std", "nanstd"):
-            out.append(k * u * (m * w + w * w + (m * m if case.get("dtype") == "float32" else 0.0)))
+            out.append(k * u * (m * w + w * w + (m * m if case.get("dtype") in NARROW else 0.0)))
         else:
             out.append(0.0)
     return out
+
+
+def narrow_exact(case, cols, l, u):
+    """mean / sum in a NARROW dtype (float32, float16): is the accumulation in that dtype EXACT for each of the given
+    columns, whatever the order of the additions?  Sufficient: every clipped value, converted to the dtype, is a multiple
+    of one quantum q (the smallest spacing among them) and sum |v| <= 2^p q (every partial sum is then representable);
+    for the means the divisor (number of non-NaN values) is a power of two.  Then the narrow dtype adds NO rounding of its
+    own beyond the conversion of the clipped values (which maps [l, u] into the rounded bounds), and the displacement is
+    compared with the sensitivity up to DOUBLE rounding only: an allowance proportional to the dtype's epsilon would
+    hide an input that is not confined to the bounds AS ROUNDED TO THE DTYPE (the sensitivity is computed from those)."""
+    tool = case["tool"]
+    if case.get("dtype") not in NARROW or tool not in ("mean", "nanmean", "sum", "nansum"):
+        return False
+    dt, p = NARROW[case["dtype"]]
+    with np.errstate(all="ignore"):
+        for col in cols:
+            c = np.clip(np.asarray(col, dtype=float), l, u)
+            if tool.startswith("nan"):
+                c = c[~np.isnan(c)]
+            elif np.isnan(c).any():
+                return False
+            v = c.astype(dt)
+            if not np.isfinite(v).all():
+                return False
+            k = v.size
+            if tool in ("mean", "nanmean") and (k == 0 or k & (k - 1)):
+                return False
+            nz = v[v != 0]
+            if nz.size == 0:
+                continue
+            q = float(np.min(np.spacing(np.abs(nz))))
+            if q <= 0 or float(np.sum(np.abs(nz.astype(float)))) > (2.0 ** p) * q:
+                return False
+            S = abs(float(np.sum(nz.astype(float))))
+            if tool in ("mean", "nanmean") and S != 0 and S / k < float(np.finfo(dt).tiny):
+                return False                    # the quotient would be subnormal (bits may be lost)
+    return True
 
 
 def classify(case, nb, site, touched_nan):
@@ -744,7 +836,7 @@ KNOWN_NAN_SUFFIXES = (":size-counts-nans", ":nan-to-value")
 def clipped_statistic(tool, col, l, u, dtype=None):
     """what the tool must hand to its mechanism for one cell: the statistic of the CLIPPED sub-array (numpy, harness side)"""
     c = np.clip(np.asarray(col, dtype=float), l, u)
-    dt = np.float32 if dtype == "float32" else None
+    dt = NARROW[dtype][0] if dtype in NARROW else None
     with np.errstate(all="ignore"), warnings.catch_warnings():
         warnings.simplefilter("ignore")
         if tool in ("nanmean", "mean"):
@@ -835,6 +927,14 @@ def direct_check(case, nb, forced_seed=1):
     worst = (0.0, None)
     qsum = 0.0
     noises = noise_of(case, len(c1))
+    noises_dt = list(noises)
+    if fam == "stat" and case.get("dtype") in NARROW and len(c1) == M1.shape[1]:
+        n64 = noise_of(dict(case, dtype=None), len(c1))
+        cbs = cell_bounds(case, len(c1))
+        for i in range(len(c1)):
+            if narrow_exact(case, (M1[:, i], M2[:, i]), cbs[i][0], cbs[i][1]):
+                noises[i] = n64[i]
+                info["narrow_exact"] = info.get("narrow_exact", 0) + 1
     first_known = None
     for i, (a, b) in enumerate(zip(c1, c2)):
         ca, cb_ = call_cfg(a), call_cfg(b)
@@ -888,7 +988,7 @@ def direct_check(case, nb, forced_seed=1):
                 tn = bool(nan_cols[i])          # NaNs in THIS cell's sub-array (D or D')
             sig = classify(case, nb, "sensitivity", tn)
             if fam == "stat":
-                sig = refine_nan_signature(case, nb, sig, i, va, vb, M1, M2, noises[i])
+                sig = refine_nan_signature(case, nb, sig, i, va, vb, M1, M2, noises_dt[i])
             v_here = (sig, f"{case['tool']}: invocation {i} ({a.cls}) input moves {va!r} -> {vb!r} (|d|={d:.6g}) but "
                            f"sensitivity={sens:.6g} (ratio {ratio:.6g})"
                            + (" — the input is not the statistic of the clipped data" if sig.endswith("not-clipped") else ""),
@@ -1251,7 +1351,30 @@ def witness(name, sig):
     return run
 
 
+def _wit_int_dtype(ctx):
+    """mean / var / std with dtype=int: the statistic itself is truncated to an integer before it reaches the mechanism"""
+    import warnings as _w
+    out = []
+    for name, (a1, a2) in (("mean", ([2.9, 2.9, 2.9], [0.5, 2.9, 2.9])),):
+        ins = []
+        for arr in (a1, a2):
+            with _w.catch_warnings():
+                _w.simplefilter("ignore")
+                with seams.interpose(force=lambda c, i: c.value) as calls:
+                    getattr(dp.tools, name)(np.array(arr), epsilon=1.0, bounds=(0.5, 2.9), dtype=int, random_state=0,
+                                            accountant=dp.BudgetAccountant())
+            ins.append((float(calls[0].value), float(calls[0].params["sensitivity"])))
+        out.append((name, ins))
+    (v1, s1), (v2, _s2) = out[0][1]
+    fails = abs(v1 - v2) > s1 * (1 + 1e-9)
+    return fails, (f"tools.mean([2.9, 2.9, 2.9], bounds=(0.5, 2.9), dtype=int) hands the mechanism {v1!r}, the neighbour "
+                   f"[0.5, 2.9, 2.9] hands it {v2!r}: displacement {abs(v1 - v2)!r} with configured sensitivity {s1!r} "
+                   f"(np.mean(..., dtype=int) truncates the statistic itself; the same for var and std; nanmean(dtype=int) "
+                   f"raises TypeError)")
+
+
 WITNESSES = {
+    "C07:mean|var|std:int-dtype-truncates-statistic": _wit_int_dtype,
     "C07:nanmean:size-counts-nans": witness("nanmean", "C07:nanmean:size-counts-nans"),
     "C07:nanvar:size-counts-nans": witness("nanvar", "C07:nanvar:size-counts-nans"),
     "C07:nanstd:size-counts-nans": witness("nanstd", "C07:nanstd:size-counts-nans"),
@@ -1277,6 +1400,26 @@ def check(ctx):
         tool = STAT_TOOLS[i % len(STAT_TOOLS)]
         mn = max_n if i % 5 else min(max_n, 8)
         one_case(ctx, r, gen_stat_case(r, mn, tool), 3, lines, pending)
+    # narrow dtypes x bounds the dtype cannot represent x extreme replacements: direct check only, own random stream
+    rn = ctx.fork("narrow-dtype")
+    for i in range(ctx.budget(300, 3000)):
+        case = gen_narrow_case(rn)
+        calls, out, exc = run_tool(case, arr=as_array(case))
+        if exc is not None:
+            ctx.case(None)
+            ctx.count("tool_raised:" + type(exc).__name__)
+            if not isinstance(exc, (ValueError, TypeError)):
+                raise exc
+            continue
+        for kind in ("corner", "far", "corner"):
+            nb = gen_neighbour(rn, case, kind)
+            v, info = direct_check(case, nb)
+            ctx.case(case_key(case, nb) if info.get("moved") else None)
+            ctx.count("neighbour_pairs")
+            ctx.count("narrow_dtype_pairs")
+            ctx.count("narrow_dtype_exact_cells", info.get("narrow_exact", 0))
+            if v:
+                report(ctx, v[0], v[1], v[2])
     for i in range(n_quant):
         one_case(ctx, r, gen_quant_case(r, max_n if i % 4 else 6), 3, lines, pending)
     for i in range(n_hist):
